@@ -329,6 +329,8 @@ struct CtxInner {
     samples: Vec<J>,
     classes: BTreeMap<String, u64>,
     known_hits: BTreeMap<String, u64>,
+    /// the concrete signatures that matched listed findings (what a glob actually absorbed)
+    known_sigs: BTreeMap<String, u64>,
     gated_out: BTreeMap<String, u64>,
     violations: Vec<Violation>,
     known_lines: BTreeSet<String>,
@@ -443,6 +445,7 @@ impl Ctx {
         if let Some(fd) = matched {
             let mut g = self.inner.lock().unwrap();
             *g.known_hits.entry(fd.sig.clone()).or_insert(0) += 1;
+            *g.known_sigs.entry(f.sig.clone()).or_insert(0) += 1;
             g.known_lines.insert(format!(
                 "KNOWN-FINDING: property={} {} [sig={}]",
                 self.prop, fd.text, fd.sig
@@ -522,6 +525,7 @@ impl Ctx {
         coverage.insert("samples".into(), J::Array(g.samples.clone()));
         coverage.insert("classes".into(), json!(g.classes));
         coverage.insert("known_finding_hits".into(), json!(g.known_hits));
+        coverage.insert("known_finding_signatures_seen".into(), json!(g.known_sigs));
         coverage.insert("cases_removed_by_gates".into(), json!(g.gated_out));
         coverage.insert(
             "closed_gates".into(),
